@@ -1,5 +1,6 @@
 CONSTANT W = 4
 CONSTANT MODE = "sign"
+CONSTANT RNG = 16
 SPECIFICATION Spec
 INVARIANT MulCorrect
 INVARIANT SignCorrect
